@@ -15,7 +15,7 @@ VARIANTS = {
     # name: flags
     "plain": ["-O1", "-DNDEBUG"],
     "assert": ["-O1"],
-    "asan": ["-O1", "-DNDEBUG", "-g", "-fsanitize=address,undefined",
+    "asan": ["-O1", "-g", "-fsanitize=address,undefined",
              "-fno-sanitize-recover=all", "-fno-omit-frame-pointer"],
 }
 
@@ -140,8 +140,14 @@ def replay_once(cand):
         cmd += ["--props", cand["props"]]
     if cand.get("space"):
         cmd += ["--space", cand["space"]]
-    if cand.get("extra"):
-        cmd += ["--extra", cand["extra"]]
+    extra = cand.get("extra") or ""
+    if cand.get("driver") == "unknown":
+        import re
+        m = re.match(r"omit=(\d+)", cand.get("detail", ""))
+        if m:
+            extra = (extra + "," if extra else "") + "omit=" + m.group(1)
+    if extra:
+        cmd += ["--extra", extra]
     try:
         rc, so, se = C.run_cmd(cmd, timeout=300, env=ASAN_ENV)
     except Exception as e:  # timeout
